@@ -653,7 +653,7 @@ def gen_history(rng, nops):
 
     def new_op():
         kind = rng.choice(['records', 'columns', 'kwargs', 'rows', 'header_rows', 'empty', 'cols_only', 'bad'])
-        n = rng.choice([0, 1, 1, 2, 3, 4, 5])
+        n = rng.choice([0, 1, 1, 2, 3, 4, 5]) if rng.random() > 0.015 else rng.choice([70, 140])       # now and then a long table: any size-dependent path of the table code is reached
         cs = gen.subset(rng, gen.COLS, 1, 4)
         if kind == 'records':
             n = max(n, 1)
